@@ -163,9 +163,9 @@ class World:
     # ------------------------------------------------------------------ injected faults
     FAULT_TYPES = (Injected, TypeError, ValueError, KeyError, RuntimeError)
 
-    def new_fault(self, tag: str, kind: int = 0, allow_base: bool = False) -> BaseException:
+    def new_fault(self, tag: str, kind: int = 0, allow_base: bool = False, at_call: bool = False) -> BaseException:
         """An exception object the harness injects; its type varies (user code fails with all sorts of exceptions)."""
-        types = self.FAULT_TYPES + ((Fatal,) if allow_base else ())
+        types = self.FAULT_TYPES + ((Fatal,) if allow_base else ()) + ((StopIteration, StopAsyncIteration, LookupError) if at_call else ())
         cls = types[kind % len(types)]
         exc = cls(tag)
         self.faults.append(exc)
@@ -296,7 +296,8 @@ class World:
                 world.in_user -= 1
                 rm.in_call = False
             if raised:
-                raise world.new_fault(f"call r{rm.rid}[{idx}]", wspec.get("fault_kind", 0) + idx)
+                # a plain call may fail with anything, StopIteration included (inside a coroutine Python would turn that into RuntimeError)
+                raise world.new_fault(f"call r{rm.rid}[{idx}]", wspec.get("fault_kind", 0) + idx, at_call=True)
             return rec
 
         if plain:
@@ -439,6 +440,10 @@ class World:
                 pm.injected.append(exc)
                 pm.fault_seen = True
                 raise exc
+            if wspec.get("retval") is not None:
+                # returned, not raised: of no concern to anybody but the caller of the function
+                self.label("worker:returns-exception-instance")
+                return [RuntimeError("a returned value"), asyncio.CancelledError("a returned value"), None, KeyboardInterrupt("a returned value")][wspec["retval"] % 4]
             return ("ret", rm.rid, rec.idx)
         except asyncio.CancelledError:
             how = "cancel"
@@ -617,7 +622,8 @@ class World:
                 elems.append([("m", s, j), ["m", s], {s: 1, Sentinel(f"r{rm.rid}f{j}"): 2}, "ab", ()][shape % 5])
             else:
                 import types as _t
-                elems.append([{"s": s, "j": j}, _t.MappingProxyType({"s": s}), {}, {"s": s, "j": j}, StrMapping({"k": s})][shape % 5])
+                elems.append([{"s": s, "j": j}, _t.MappingProxyType({"s": s}), {}, {"s": s, "j": j}, StrMapping({"k": s}),
+                              {"func": s, "group_name": j, "self": None, "args": (), "kwargs": {}}][shape % 6])
         rm.elements = elems
         pull_ops = spec.get("pull_ops") or {}
         raise_at = spec.get("raise_at", -1)
